@@ -16,6 +16,9 @@ ASSUMPTIONS = [
     "all members Dict with one key type; all members plain classes; Generator with None send and return types. No trigger anywhere in the "
     "type => the result must be structurally equal to the input (up to union order)",
     "ChainedRewriter over all ordered pairs of shipped rewriters on the subset-union grammar",
+    "stream: ONE rewriter instance (DEFAULT_REWRITER itself, one RewriteLargeUnion(5), one RewriteMostSpecificCommonBase) rewrites 60-200 unions "
+    "that nobody keeps alive; builtins.id seen by the monkeytype modules follows engine/envmodel.py AdversarialId (unique among live objects, a dead "
+    "object's number is handed to the next object): any id a real allocator may produce for non-overlapping lifetimes is produced at once",
 ]
 
 
@@ -38,4 +41,9 @@ def run(tier):
         jobs = [J("types_sub11", 200, 4), J("inferred_tiny", 100, 3), J("types_sub8_pairs", 150, 4),
                 J("types_sub14", 400, 5), J("types_sub17", 400, 6), J("types_sub10_pairs", 400, 5),
                 J("inferred_small", 400, 3), J("types_mix9", 100, 4), J("types_mix13", 400, 5), J("types_nest8", 100, 4), J("types_td7", 100, 4), J("types_nest8_pairs", 300, 5), J("types_quick", 300, 3), J("types_deep", 300, 3), J("types_union", 300, 3)]
+    from engine.runner import Job as _Job
+
+    jobs.append(_Job("harness.c07", "stream", H.shards("stream"), 200, bounds=dict(stream="60 uncached or 200 typing-cached unions of 6 (or 3) members out of 16 classes (two families of 8 and 6 plus int, str; alternating: all of family R, all of family Q, mixed), none kept alive; id() follows the adversarial model of engine/envmodel.py (a dead object's id goes to the next object)",
+                                                                                  rewriter=["DEFAULT_REWRITER (the singleton)", "one RewriteLargeUnion(5)", "one RewriteMostSpecificCommonBase"]),
+                     rule="one path = (long-lived rewriter, union size): a stream through ONE rewriter instance", describe=H.describe))
     return run_check(PID, tier, jobs, H.FUNCTIONS, ASSUMPTIONS)
